@@ -210,7 +210,7 @@ func (d *driver) confirmAndShrink(rec *record, f *finding) (string, *replayFile,
 	// process had compiled earlier: retry with that prelude in the same process
 	// and, if it reproduces, minimise the prelude.
 	var prelude [][]byte
-	if rec.res != nil {
+	{
 		for k := 0; k < 2; k++ {
 			g, res, err := d.evalWith(prelude, cloneScenario(cur), want)
 			runs++
@@ -226,7 +226,9 @@ func (d *driver) confirmAndShrink(rec *record, f *finding) (string, *replayFile,
 				return "", nil, toolErrf("violation %s of scenario %d (seed %d) did not reproduce from its recorded schedule (run %d, prelude of %d scenarios); refusing to report it", want, rec.idx, d.seed, k+1, len(prelude))
 			}
 			best = *g
-			cur.Sched.Explicit = append([]proto.Slice{}, res.Schedule...)
+			if res != nil && !res.Crashed {
+				cur.Sched.Explicit = append([]proto.Slice{}, res.Schedule...)
+			}
 		}
 		// ddmin over the prelude
 		for chunk := (len(prelude) + 1) / 2; len(prelude) > 0 && chunk >= 1; chunk /= 2 {
@@ -252,24 +254,31 @@ func (d *driver) confirmAndShrink(rec *record, f *finding) (string, *replayFile,
 			best.Detail = fmt.Sprintf("[depends on process history: reproduces only after %d earlier scenario(s) in the same OS process] ", len(prelude)) + best.Detail
 		}
 	}
-	deadline := time.Now().Add(time.Duration(envInt("VERIF_SHRINK_SECONDS", 90)) * time.Second)
-	budget := envInt("VERIF_SHRINK_RUNS", 400)
+	// Each phase gets its own allowance of executions (so that a long phase
+	// cannot starve the later ones) under one overall wall-clock limit.
+	deadline := time.Now().Add(time.Duration(envInt("VERIF_SHRINK_SECONDS", 150)) * time.Second)
+	phaseRuns := envInt("VERIF_SHRINK_RUNS", 160)
+	budget := runs + phaseRuns
+	phase := func() { budget = runs + phaseRuns }
 	try := func(cand *proto.Scenario) bool {
-		if runs >= budget || time.Now().After(deadline) || rec.res == nil {
+		if runs >= budget || time.Now().After(deadline) {
 			return false
 		}
 		runs++
 		g, res, err := d.evalWith(prelude, cand, want)
-		if err != nil || g == nil || res == nil {
+		if err != nil || g == nil {
 			return false
 		}
 		// keep the schedule that was actually taken, so the file replays exactly
-		cand.Sched.Explicit = append([]proto.Slice{}, res.Schedule...)
+		// (a run whose process died keeps its seeded schedule: deterministic too)
+		if res != nil && !res.Crashed {
+			cand.Sched.Explicit = append([]proto.Slice{}, res.Schedule...)
+		}
 		cur = cand
 		best = *g
 		return true
 	}
-	if rec.res != nil {
+	if rec.res != nil || rec.crashed != "" {
 		// 2. sequential schedule
 		c := cloneScenario(cur)
 		c.Sched.Explicit = []proto.Slice{}
@@ -284,6 +293,7 @@ func (d *driver) confirmAndShrink(rec *record, f *finding) (string, *replayFile,
 				try(c)
 			}
 		}
+		phase()
 		for changed := true; changed && runs < budget && time.Now().Before(deadline); {
 			changed = false
 			// 4. drop tasks
@@ -306,6 +316,7 @@ func (d *driver) confirmAndShrink(rec *record, f *finding) (string, *replayFile,
 				}
 			}
 		}
+		phase()
 		// 6. sequential again (often possible only after dropping tasks)
 		if countSwitches(cur.Sched.Explicit) > 0 {
 			c := cloneScenario(cur)
@@ -350,6 +361,7 @@ func (d *driver) confirmAndShrink(rec *record, f *finding) (string, *replayFile,
 				break
 			}
 		}
+		phase()
 		// 8. smallest set of permuted map sites
 		if cur.Perm.Mode != "" && cur.Perm.Mode != simrt.PermCanonical {
 			// sites that actually saw a non-identity order
